@@ -26,6 +26,9 @@ RULE = ("DIP texts with 4 context nodes and 1-2 constrained nodes (float with un
         "clause nested under the node at their indent (selected or not, closed by indentation, further property lines after it); conditions "
         "joining 2-4 sub-conditions with || and && in every tree shape and truth pattern (also on bool and str nodes); a fifth of the cases are STAGED parses (DIP(env) continues on the returned environment, 2-3 "
         "stages) whose later stages modify the node, the node its !condition refers to ({?} < {?k}) or an unrelated node, judged after every stage; "
+        "a further quarter of the volume are float/int nodes with a !condition of the shape `{?} <op> literal [unit]` (6 operators; literal without unit, in the node's unit, "
+        "another unit, another dimension; final value on / 3e-7 inside / 5e-6 outside / far from the converted literal, reached by 0-2 modifications) whose value is computed by the C16 model itself "
+        "(condNum on the final value, in doubles) and judged by an independent verdict of the generator; "
         "real DIP.parse accepts or raises; the values every node "
         "ends with are computed independently by the generator and the Lean specification `holds` decides them; on acceptance the returned "
         "env.data() is re-checked against those values. non-trivial = >=2 constraint kinds on one node, or an option/condition in another unit, "
@@ -38,7 +41,9 @@ ASSUMPTIONS = [
     "a node without declared dimensions takes scalar values only; a function delivering an array to a scalar node returns at least 2 elements "
     "(numpy converts a 1-element array to a scalar)",
     "tolerance verdicts are judged only when robust (10% away from the boundary 1e-8 + 1e-6*|b|)",
-    "!condition expressions come from the C18 logical grammar with {?} bound to the node; their value is computed by the C18 model/specification",
+    "!condition expressions come from the C18 logical grammar with {?} bound to the node; their value is computed by the C18 model/specification - "
+    "except in the simple-cond stream, where the C16 model computes `{?} <op> literal [unit]` from the final value (condNum); strict comparisons are "
+    "judged exactly on the boundary only when the double the code holds for the converted literal is the one the formula b*k_lit/k_node gives",
     "re.match is a parameter: its verdict on the final value is computed by the harness and handed to model and specification",
     "int nodes are modified in their own unit (int casting of converted values is C14)",
     "the value a modification in another unit leaves in a node is computed with the units layer itself (Quantity.value, property C04), so the "
@@ -51,7 +56,8 @@ ASSUMPTIONS = [
 EXPLANATION = ("theorems: the validation loop accepts a node list iff every node satisfies holds (soundness and completeness, by induction over the "
                "node list, for all values/options/units, with conversion, isclose, condition value and re.match as parameters); "
                "cast_value's dimension test iff the value has every declared axis and every declared bound holds; options compared after "
-               "conversion to the node's unit")
+               "conversion to the node's unit; the !condition `{?} <op> literal [unit]` as a model function of the final value with its exact acceptance "
+               "set over an ordered field (strict operators reject the boundary, tolerant ones accept it, monotone in the value)")
 
 LUNITS = ["m", "cm", "km", "mm"]
 CONTEXT = ["k float = 3 m", "n int = 4", "w str = 'ab'", "j int = 2 m", "tt bool = true", "ff bool = false"]
@@ -750,6 +756,119 @@ def staged_stream(ctx, rng, tabs, drv18, count, DIP, unit_rows):
                 break
 
 
+def simple_cond_stream(ctx, rng, count, DIP):
+    """Conditions of the shape `{?} <op> literal [unit]` whose value is computed BY THE C16 MODEL (condNum / withNumCond of
+    Model/C16.lean, run in doubles by the driver) from the node's final value - not by the C18 driver. Final values sit on, just
+    inside, just outside and far from the boundary b*k_lit/k_node, reached by 0-2 modifications (also in another unit); float and
+    int nodes with and without unit; literal without unit, in the node's unit, another unit of the dimension, another dimension.
+    The specification verdict is computed here, independently, from the double the code holds, with safety margins."""
+    OPS = {"eq": "==", "ne": "!=", "lt": "<", "gt": ">", "le": "<=", "ge": ">="}
+    with DIP() as d:
+        d.add_string("a float = 1 m")
+        env = d.parse()
+    rows = c18.unit_table(env, LUNITS + ["s"])
+    reqs, meta = [], []
+    for _ in range(count):
+        kind = rng.choice(["float", "float", "int"])
+        unit = rng.choice(LUNITS + [None]) if kind == "float" else rng.choice(["m", "cm", "mm", None])
+        op = rng.choice(sorted(OPS))
+        r = rng.random()
+        lunit = None if (unit is None and r < 0.7) else unit if r < 0.25 else "s" if r < 0.32 else None if r < 0.4 else rng.choice(LUNITS)
+        blit = rng.choice([2.5, 1.0, 3.0, 40.0, 0.125, 7.0, -2.0, 0.0, 1e-3, 12345.0]) if kind == "float" or lunit != unit else float(rng.choice([3, 40, 7, -2, 0, 12]))
+        if rng.random() < 0.3:
+            blit = float(int(blit))
+        lit_text = ("%d" % blit if blit == int(blit) and rng.random() < 0.5 else fnum(blit)) + (" " + lunit if lunit else "")
+        convertible = not (unit and lunit and lunit != unit and lunit == "s")
+        # the right operand the code compares with: the literal in the node's unit (NumberType.convert = the units layer)
+        y = conv_real(blit, lunit, unit) if (unit and lunit and lunit != unit and convertible) else blit
+        exact_conv = (not (unit and lunit and lunit != unit)) or (convertible and blit * KMAP[lunit] / KMAP[unit] == y)
+        where = rng.choice(["on", "on", "in+", "in-", "out+", "out-", "far+", "far-"])
+        f = {"on": 1.0, "in+": 1 + 3e-7, "in-": 1 - 3e-7, "out+": 1 + 5e-6, "out-": 1 - 5e-6, "far+": 2.0, "far-": 0.5}[where]
+        x = y * f if y != 0 else {"on": 0.0, "in+": 3e-9, "in-": -3e-9, "out+": 5e-8, "out-": -5e-8, "far+": 1.0, "far-": -1.0}[where]
+        if kind == "int":
+            x = float(round(x)) if where in ("on", "far+", "far-") else float(round(x) + rng.choice([1, -1]))
+            if abs(x) > 1e15:
+                continue
+        # the path to the final value: definition, then modifications (the last one decides)
+        nmods = rng.choice([0, 1, 1, 2])
+        vals = [x * rng.choice([2.0, 0.5, 1.0]) + rng.choice([0, 1]) for _ in range(nmods)] + [x]
+        if kind == "int":
+            vals = [float(round(v)) for v in vals]
+        def vtext(v, u):
+            return ("%d" % v if kind == "int" else fnum(v)) + (" " + u if u else "")
+        lines = ["q %s = %s" % (kind, vtext(vals[0], unit)), "  !condition (\"{?} %s %s\")" % (OPS[op], lit_text)]
+        final = vals[0]
+        for v in vals[1:]:
+            mu = unit
+            if unit and kind == "float" and rng.random() < 0.3 and v == x and where.startswith("far"):
+                mu = rng.choice([u for u in LUNITS if u != unit])
+                lines.append("q = %s" % vtext(v * KMAP[unit] / KMAP[mu], mu))
+                final = conv_real(v * KMAP[unit] / KMAP[mu], mu, unit)
+            else:
+                lines.append("q = %s" % vtext(v, unit))
+                final = v
+        text = "\n".join(lines)
+        # independent verdict on the final value (None = too close to a boundary to judge in doubles)
+        if not convertible:
+            spec = False
+        else:
+            dlt, tol = final - y, 1e-8 + 1e-6 * abs(y)
+            sure_lt = dlt < -1e-9 * max(abs(y), 1e-300)
+            sure_gt = dlt > 1e-9 * max(abs(y), 1e-300)
+            same = final == y and exact_conv
+            close = True if abs(dlt) <= 0.9 * tol else False if abs(dlt) >= 1.1 * tol else None
+            if op == "eq":
+                spec = close
+            elif op == "ne":
+                spec = None if close is None else not close
+            elif op == "lt":
+                spec = True if sure_lt else False if (sure_gt or same) else None
+            elif op == "gt":
+                spec = True if sure_gt else False if (sure_lt or same) else None
+            elif op == "le":
+                spec = True if (sure_lt or close is True) else False if (sure_gt and close is False) else None
+            else:
+                spec = True if (sure_gt or close is True) else False if (sure_lt and close is False) else None
+        nd = {"declared": False, "value": ["num", float(final), unit], "unit": unit, "selectable": True, "options": [],
+              "isStr": False, "dims": [], "shape": [], "scond": [op, float(blit), lunit],
+              "cond_spec": spec if isinstance(spec, bool) else "unknown"}
+        reqs.append({"p": "C16", "k": "env", "units": rows, "nodes": [nd]})
+        meta.append((text, op, where, kind, unit, lunit, spec))
+    res = ctx.driver.ask_many(reqs)
+    for (text, op, where, kind, unit, lunit, spec), r in zip(meta, res):
+        try:
+            with warnings.catch_warnings():
+                warnings.simplefilter("ignore")
+                with DIP() as d:
+                    d.add_string(text)
+                    d.parse()
+            imp = True
+        except Exception:
+            imp = False
+        ctx.count("mode.simple-cond")
+        ctx.count("scond.op_" + op)
+        ctx.count("scond.at_" + where.rstrip("+-"))
+        ctx.count("scond.lit_" + ("other-dim" if lunit == "s" and unit else "no-unit" if not (unit and lunit) else "same-unit" if unit == lunit else "other-unit"))
+        ctx.count("impl.accepted" if imp else "impl.rejected")
+        ctx.case(["scond", text], True, {"text": text, "accepted": imp})
+        replay = {"stream": "simple-cond", "text": text, "impl_accepts": imp, "spec_py": spec}
+        if "ok" not in r:
+            ctx.disagreement("simple-cond", replay, "driver error %s" % r)
+            continue
+        model, dspec = r["ok"]["model"], r["ok"]["spec"]
+        replay.update({"model": model, "spec": dspec})
+        if spec is None or dspec == "unknown":
+            ctx.count("not_judged")
+            continue
+        if imp != spec:
+            ctx.violation(("accepts-violating:" if imp else "rejects-satisfying:") + "simple-condition:" + op,
+                          "DIP.parse %s a text whose final value %s the condition: %s" %
+                          ("accepts" if imp else "rejects", "violates" if imp else "satisfies", text.replace("\n", " / ")[:300]), replay)
+            continue
+        if imp != model or dspec != spec:
+            ctx.disagreement("simple-cond", replay, "impl accepts=%s model(condNum)=%s driver spec=%s" % (imp, model, dspec))
+
+
 def _run(ctx, rng, tabs, drv18, count, tmpdir, DIP, Format):
     cases = []
     for i in range(count):
@@ -952,3 +1071,6 @@ def _run(ctx, rng, tabs, drv18, count, tmpdir, DIP, Format):
                         ctx.violation("returned-value:" + t.kind, "accepted environment returns %r for %s, the constraints were judged on the final value %r: %s" %
                                       (got, full, val, text.replace("\n", " / ")[:300]), replay)
                         break
+
+    # conditions `{?} <op> literal [unit]` evaluated by the C16 model itself (runs last: the other streams keep their random sequence)
+    simple_cond_stream(ctx, rng, count // 4, DIP)
